@@ -193,6 +193,12 @@ _txt('meta1', [
     Rule('_pair', [[L('<'), Star(T('NAME')), L('>')]]),
 ], [Term('NAME', ('re', '[a-z]')), Term('WS', ('re', r'[ \n]+'))], ignore=['WS'], tags={'lalr', 'unamb', 'nl'})
 
+# a repeated multi-character item inside a terminal: the possible match lengths have gaps (2, 4), and the next terminal could
+# consume a left-over fragment
+_txt('reptok', [
+    Rule('start', [[T('T'), T('X')]]),
+], [Term('T', ('re', '(?:ab){1,2}'), src='"ab"~1..2'), Term('X', 'b')], tags={'dyn'})
+
 # anonymous literals whose conventional names (PLUS, COMMA) are taken by user terminals with other patterns
 _txt('anoncollide', [
     Rule('start', [[Plus(Grp([T('PLUS'), L('+')], [T('COMMA'), L(',')]))]]),
